@@ -25,6 +25,12 @@ var lockAssume = []string{
 }
 
 var lockFuncs = []string{"ensureFileExists", "withLock"}
+var storageFuncs = []string{"writeAll", "appendEvents", "writeEventsFile", "syncDir", "replaceEventsAtomically", "appendEventsAtomically"}
+var crashAssume = []string{
+	"crash model (trusted): a process can die only between two system calls or inside one write(2), which then leaves a prefix of its bytes; the kernel releases flock when the holder dies; rename(2) is atomic; fsync makes a file durable. Under this model the obligations are about how many calls there are and in which order, not about exploring kill points",
+	"the extern contracts of os.OpenFile, (*os.File).Write/Sync/Close, bufio.Writer.Write/Flush and os.Rename are ASSUMED (ghost effects on logWrites, tailTorn, tmpStage); the byte content written is not related to the events (clauses [ok]/[fail] of appendEvents and replaceEventsAtomically about the ghost log version stay assumed)",
+	"readEvents (bufio.Scanner with a stateful split function) is outside the verified subset: BOUNDED stand-in on the real function (every line sequence of length <= 4 (thorough 5) over 7 line kinds x 4 tails; every byte prefix of 40 valid logs), labelled bounded, never counted as proved",
+}
 var sectionFuncs = []string{"RunClaimOldestReady$1", "applySetUpdates$1", "writeLinkEvent$1", "createTaskWithDir$1", "writeResultEvent$1", "runPrune$1", "RunCompact$1", "RunPlan$1"}
 var outerFuncs = []string{"writeLinkEvent", "createTaskWithDir", "createTask", "writeResultEvent", "applySetUpdates", "runPrune", "RunPrunePlan", "RunPruneApply", "appendEventsAtomically"}
 var commandFuncs = []string{"RunClaimOldestReady", "RunClaim", "RunSet", "RunNewTask", "RunNewEpic", "RunSequence", "RunPrune", "RunCompact", "RunShow", "RunInit", "RunPlan"}
@@ -48,6 +54,26 @@ var propSpecs = map[string]*PropSpec{
 		Technique: "contract-based deductive verification of the lock protocol as ghost state: every write primitive requires LOCK_EX held and the log read in the same lock epoch (obligations at every call site), withLock never blocks, every command is at most one commit (recorded findings where it is not)",
 		Census:    "writers",
 		Assume:    append([]string{"init's file creation outside the lock is tracked by the ghost counter fsWrites only"}, lockAssume...),
+	},
+	"C03": {
+		ID: "C03", Exclude: jsonLabels, Title: "A killed process never bricks the store or loses acknowledged work",
+		Funcs:     cat(storageFuncs, lockFuncs, sectionFuncs),
+		Bounded:   []string{"readEvents"},
+		Technique: "contract-based deductive verification with the log file as ghost state (tailTorn, logWrites, tmpStage): on their real bodies, appendEvents is proved to issue at most one write(2), of newline-terminated lines only (a complete call leaves the tail as it found it); writeEventsFile is proved to flush and fsync the temp file before it returns success, and replaceEventsAtomically to rename only a durable temp file (obligation at the rename) and to leave a clean tail; every write primitive is called with LOCK_EX held in the epoch of the read (call-site obligations in every section). The obligation that an append never glues onto a torn tail FAILS on the real code and is the recorded finding (replayed on the real binary); reader tolerance is a bounded stand-in",
+		Assume:    crashAssume,
+	},
+	"C04": {
+		ID: "C04", Exclude: jsonLabels, Title: "Multi-event commands are all-or-nothing across process death",
+		Funcs:     cat(storageFuncs, lockFuncs, sectionFuncs, outerFuncs, commandFuncs),
+		Technique: "contract-based deductive verification: every lock section is proved to call a write primitive at most once with all its events (one commit), appendEvents is proved to turn that call into at most ONE write(2) (defect repaired: one write per event before), and plan/compact go through the rename of a durable temp file; with one system call per command there is no point between two of its calls at which a kill can split it. Commands made of two sections (set with a result, new task with follow-up fields, multi-edge sequence) are the recorded findings with residual queries",
+		Assume:    append([]string{"a single write(2) of a few hundred bytes to a regular file is not split by SIGKILL (signals are taken at system-call boundaries); power loss and short writes belong to C03's torn-tail model"}, crashAssume...),
+	},
+	"C13": {
+		ID: "C13", Exclude: cat(jsonLabels, []string{"[fail-unchanged]", "[one-commit]", "[committed]"}), Title: "Readers never fail or see garbage while writers are active",
+		Funcs:     cat([]string{"RunList", "RunShow", "RunWhere"}, storageFuncs, replayFuncs),
+		Bounded:   []string{"readEvents"},
+		Technique: "contract-based deductive verification of the two sides of a rely/guarantee argument: writers guarantee (proved on the real bodies) that the log only ever grows by one write of whole newline-terminated lines, or is replaced by the rename of a complete, durable file; readers (list, show, where) are proved to take no lock, never to block and to write nothing; what a lock-free reader makes of a log that is being extended - any byte prefix - is the BOUNDED stand-in on the real readEvents (every byte prefix of 40 logs reads without error as the events of its complete lines). The probe-before-scan race in readEvents was a genuine defect (repaired, forced schedule replayed with strace)",
+		Assume:    append([]string{"interleavings are not enumerated: by the writers' guarantee every state a reader can observe is a byte prefix of some log the store passed through (append path) or a complete old/new file (rename path); that a reader observing the first lines of a multi-line write sees a state between two events of one command is inherent to lock-free reads and is NOT excluded"}, crashAssume...),
 	},
 	"C06": {
 		ID: "C06", Exclude: cat(txLabels, jsonLabels), Title: "State machine and claim invariants hold on every path",
